@@ -302,6 +302,19 @@ def failing_indices(prop, cases, obs, scratch, tag):
     return sorted(bad)
 
 
+def load_corpus(prop_id):
+    out = []
+    d = os.path.join(VERIF, "corpus_min", prop_id)
+    if os.path.isdir(d):
+        for name in sorted(os.listdir(d)):
+            if name.endswith(".json"):
+                try:
+                    out.append(json.load(open(os.path.join(d, name)))["input"])
+                except Exception:  # pylint: disable=broad-except
+                    pass
+    return out
+
+
 def load_known():
     p = os.path.join(VERIF, "known_findings.json")
     if not os.path.exists(p):
@@ -397,6 +410,11 @@ def run(prop, args, seed, scratch, t0):
     else:
         gen_tier = tier if proofs_ok else "thorough"  # a broken obligation turns the run into a search
         cases, streams = prop.generate(rng, gen_tier)
+        # minimised inputs that once witnessed a violation under a seeded change (corpus_min/<id>/*.json, written by
+        # harness/mkcorpus.py from replay files) run first, whatever the seed; they must agree on an unchanged tree like any other case
+        cor = [] if os.environ.get("VERIF_NO_CORPUS") else load_corpus(prop.ID)
+        cases = cor + cases
+        streams = ["corpus"] * len(cor) + streams
     log("[%s] %d cases generated (%s)" % (prop.ID, len(cases), tier))
     t1 = time.time()
     obs = prop.run_all(cases, scratch, run_impl_parallel) if hasattr(prop, "run_all") else run_impl_parallel(prop.ID, cases, scratch)
